@@ -153,6 +153,15 @@ P1 = [
     (r"[a-z.]+\.(tx|lo|md)", "UseReverseSuffixSet", "q"),
     (r"(?s).*ab", "UseReverseSuffix", "q"),
     (r".+co.+", "UseReverseInner", "q"),
+    # --- strategies / paths no other entry reached (block-coverage report, tools/coverage.py)
+    ("|".join(c1 + c2 for c1 in "abcdefghj" for c2 in "klmnopqr"), "UseAhoCorasick", "q"),   # 72 complete literals
+    (r"abc|abd|xyz\d", "UseTeddy", "q"),                 # Teddy with an incomplete literal: candidate + verification
+    (r"foo[a-z]{40}x", "UseDFA", "q"),                   # prefilter + NFA of > 100 states: anchored DFA verification per candidate
+    (r"\b(?:foo|bar)[0-9]{4}[a-z]{4}", "UseDFA", "q wq"),    # look-behind at the SECOND prefilter candidate of one DFA search
+    # groups inside loops on strategies whose submatch call is two-phase (span by the strategy, groups by
+    # PikeVM.SearchWithCapturesInSpan with copy-on-write slots; fix 34ebcaa)
+    (r"(a)+c$", "UseReverseAnchored", "q cap"),
+    (r"[a-z]+(\d)*x\.tx", "UseReverseSuffix", "q cap"),
     (r".*co[0-9]+", "UseReverseInner", "q"),             # greedy prefix over a later inner literal (fix cba9df1)
     (r".+a", "UseReverseSuffix", "q cap"),               # guard of the limited reverse search (fix bb986bd)
     (r"[a-z]+a", "UseReverseSuffix", "q"),
@@ -188,6 +197,27 @@ def entries(tier, tag=None):
             continue
         out.append((p, strat, tl))
     return out
+
+
+def windows_only(tags, tier):
+    """Entries tagged wq are large patterns whose interesting behaviour needs a concrete window: in the quick tier only
+    their window items are generated (the plain L = 0..3 items cost minutes and reach no match)."""
+    return tier == "quick" and "wq" in tags
+
+
+def deep(tags):
+    """Entries explored at the deepest length of the thorough tier (L = 4 over all bytes): the quick-tier entries. The other
+    entries take part in the thorough tier at the quick bounds (L <= 3); window-only entries (wq) never get plain items."""
+    return "q" in tags and "wq" not in tags
+
+
+def lengths(tags, tier, maxL):
+    """Plain (unwindowed) haystack lengths of one corpus entry."""
+    if "wq" in tags:
+        return []
+    if tier == "quick":
+        return list(range(0, maxL + 1))
+    return list(range(0, (maxL if deep(tags) else maxL - 1) + 1))
 
 
 def posix_ok(p):
@@ -226,6 +256,11 @@ WINDOWS = {
     r"(?s).*ab": [("\n", "b"), ("x\ny a", "")],
     r".+co.+": [("co", ""), ("", "co"), ("c", "a")],
     r".*co[0-9]+": [("xco1 ", ""), ("co1 ", "2"), ("", "o1")],
+    r"[a-z]+(\d)*x\.tx": [("a", ".tx"), ("a1", "x.tx")],
+    r"\b(?:foo|bar)[0-9]{4}[a-z]{4}": [(" xbar1234abcd ", "1234abcd"), ("xfoo1234abcd-", "1234abcd"), ("foo1234abcd bar1234abcd ", "")],
+    r"abc|abd|xyz\d": [("xyz", ""), ("ab", ""), ("xy", "1")],
+    r"foo[a-z]{40}x": [("foo" + "a" * 39, "x"), ("foo" + "a" * 37, "ax")],
+    "|".join(c1 + c2 for c1 in "abcdefghj" for c2 in "klmnopqr"): [("a", ""), ("xj", ""), ("", "k")],
     r"^(\d+|UUID|hex32)": [("UUI", ""), ("hex", ""), ("1", "")],
     r"^(foo|bar|baz)": [("ba", ""), ("f", "")],
 }
